@@ -3,7 +3,9 @@
 #[derive(Clone, Debug, PartialEq, Eq, Hash)]
 pub struct Method(Inner);
 
-#[derive(Clone, Debug, PartialEq, Eq, Hash)]
+pub const EXT_CAP: usize = 8;
+
+#[derive(Clone, Copy, Debug, PartialEq, Eq, Hash)]
 enum Inner {
     Options,
     Get,
@@ -14,8 +16,8 @@ enum Inner {
     Trace,
     Connect,
     Patch,
-    /// Extension token (bytes of the token, validated).
-    Ext(Vec<u8>),
+    /// Extension token (validated), kept inline: at most EXT_CAP bytes in the model.
+    Ext([u8; EXT_CAP], u8),
 }
 
 #[derive(Debug)]
@@ -65,14 +67,23 @@ impl Method {
                     }
                     i += 1;
                 }
-                Inner::Ext(src.to_vec())
+                assert!(src.len() <= EXT_CAP, "http model: extension method longer than EXT_CAP");
+                let mut b = [0u8; EXT_CAP];
+                let mut i = 0;
+                while i < EXT_CAP {
+                    if i < src.len() {
+                        b[i] = src[i];
+                    }
+                    i += 1;
+                }
+                Inner::Ext(b, src.len() as u8)
             }
         }))
     }
 
     /// MODEL-ONLY: an extension method without allocation-heavy validation.
     pub fn model_extension(tag: u8) -> Method {
-        Method(Inner::Ext(vec![b'X', b'0' + (tag % 10)]))
+        Method(Inner::Ext([b'X', b'0' + (tag % 10), 0, 0, 0, 0, 0, 0], 2))
     }
 
     pub fn as_str(&self) -> &str {
@@ -86,7 +97,7 @@ impl Method {
             Inner::Trace => "TRACE",
             Inner::Connect => "CONNECT",
             Inner::Patch => "PATCH",
-            Inner::Ext(v) => unsafe { std::str::from_utf8_unchecked(v) },
+            Inner::Ext(v, n) => unsafe { std::str::from_utf8_unchecked(&v[..*n as usize]) },
         }
     }
     pub fn is_safe(&self) -> bool {
